@@ -57,7 +57,23 @@ func (e *bounded) Merge(b []byte, x []byte, y []byte) ([]byte, []byte, []byte) {
 }
 
 func (e *bounded) SubMergers(subs []Expr) []SubMerge {
+	sms := make([]SubMerge, len(subs))
+	matched := false
+	for i, sub := range subs {
+		if e.String() == sub.String() {
+			sms[i] = e.subMerge
+			matched = true
+		}
+	}
+	if matched {
+		// We have an exact match, use that
+		return sms
+	}
 	return e.wrapped.SubMergers(subs)
+}
+
+func (e *bounded) subMerge(data []byte, other []byte, otherRes time.Duration, metadata goexpr.Params) {
+	e.wrapped.Merge(data, data, other)
 }
 
 func (e *bounded) Get(b []byte) (float64, bool, []byte) {
